@@ -2,6 +2,7 @@
 mod core;
 mod big;
 mod c01;
+mod c02;
 mod c03;
 mod c04;
 mod crash;
@@ -39,6 +40,7 @@ fn main() {
     }
     let code = match argv[1].to_ascii_lowercase().as_str() {
         "c01" => c01::main(args),
+        "c02" => c02::main(args),
         "c03" => c03::main(args),
         "c04" => c04::main(args),
         "c05" => c05::main(args),
